@@ -341,6 +341,7 @@ def run(prog, chk):
         chk.ok("C15.f", sc, "string mode is left only on the closing quote or the terminator", "%s:%s" % (sc.file, sc.line), "no goto out of the literal loop under an escape", evals=len(gotos))
     string_mode_automaton(chk, "C15.h", sc)
     line_break_agreement(prog, chk, "C15.i")
+    comment_bytes_not_copied(prog, chk, "C15.o")
     from .. import balance
     balance.check(prog, chk, "C15.l", [f for f in prog.functions.values() if f.file.endswith("Json.cpp") and (f.cls or "").startswith("Json::Private")], "Json::Private")
     chk.rule("C15.j", "MPT: every cursor / line field the tokenizer advances is set again in Private::parse before the first tokenizer call (a Parser is reused across documents)", floor=2)
@@ -562,3 +563,61 @@ def line_break_agreement(prog, chk, rid):
         chk.bad(rid, se, "column-walk-disagrees-with-line-count", where,
                 "the tokenizer counts the bytes %s as line breaks, syntaxError's column walk stops at %s: after a line break of the other kind the "
                 "reported column is measured from an earlier line and lies beyond the end of the reported line" % (sorted(counters), sorted(stops)), evals=n_sites + 1)
+
+
+def comment_bytes_not_copied(prog, chk, rid):
+    """Inside a block comment stripComments stops at every line break (kept, so that line numbers stay) and at every `*` (to look for
+    the closing `*/`).  Whatever it copies to the output there has to be a line break: each byte of the search's stop set is tried
+    against the branch conditions that dominate the copy - one that can reach the copy and is not a line break is comment text in the
+    output."""
+    chk.rule(rid, "FIN: in Json::stripComments a byte found by the block-comment search (stop set read from the call) is copied to the output "
+                  "only if it is a line break: for every other member of the stop set a dominating branch condition evaluates against it", floor=1)
+    fs = [f for f in prog.functions.values() if f.name == "Json::stripComments" and f.blocks]
+    if not fs:
+        raise AnalysisBroken("Json::stripComments not found")
+    f = fs[0]
+    n = 0
+    for dn in [x for x in f.nodes if x["k"] == "DeclStmt"]:
+        for d in dn["decls"]:
+            ini = f.nodes[f.strip(d["init"])] if d.get("init") is not None else None
+            if ini is None or ini["k"] != "CallExpr" or not (ini.get("callee") or "").startswith("String::findOneOf"):
+                continue
+            lit = [f.nodes[x] for x in f.desc(ini["i"]) if f.nodes[x]["k"] == "StringLiteral"]
+            stop = set(lit[0].get("bytes") or []) if lit else set()
+            if 42 not in stop:
+                continue        # (the line-comment search; its result is never copied)
+            vid, vname = d["id"], d["n"]
+            for st in q.stores(f):
+                if st.rhs is None or "dest" not in f.r(st.lhs):
+                    continue
+                rd = [x for x in [f.strip(st.rhs)] + list(f.desc(st.rhs)) if f.nodes[x]["k"] == "DeclRefExpr" and f.nodes[x]["ref"].get("id") == vid]
+                if not rd:
+                    continue
+                n += 1
+                pos = f.node_pos(st.node)
+                leaks = []
+                for v in sorted(stop):
+                    if v in (10, 13):
+                        continue
+                    excluded = False
+                    for b in f.blocks.values():
+                        c = b.get("cond")
+                        if c is None or len(b["succ"]) != 2 or b.get("tk") == "SwitchStmt" or vname not in fin.key(f, c):
+                            continue
+                        for k_ in (0, 1):
+                            if b["succ"][k_] is not None and b["succ"][0] != b["succ"][1] and f.edge_dominates((b["id"], b["succ"][k_]), pos):
+                                got = fin.eval_expr(f, c, {"*" + vname: v, vname + "[0]": v})
+                                if got is not None and bool(got) != (k_ == 0):
+                                    excluded = True
+                    if not excluded:
+                        leaks.append(v)
+                if leaks:
+                    chk.bad(rid, f, "comment-byte-copied:" + ",".join(str(v) for v in leaks), f.where(st.node),
+                            "`%s` copies the byte the comment search stopped at; nothing on the way excludes %s: a `*` that is not followed by "
+                            "`/` (every line of a boxed comment has one) is written to the output - `a /* x * y */ b` becomes `a * b`" % (
+                                q.no_casts(f.r(st.node))[:40], ", ".join(repr(chr(v)) for v in leaks)), evals=len(stop))
+                else:
+                    chk.ok(rid, f, "only line breaks are copied out of a block comment", f.where(st.node), "stop set %s tried against the dominating conditions" % sorted(stop), evals=len(stop))
+    if not n:
+        # the search result is not copied at all (line breaks re-emitted as literals, or the scan walks byte by byte)
+        chk.ok(rid, f, "no byte found by the block-comment search is copied", "%s:%s" % (f.file, f.line), "store scan", nontrivial=False)
